@@ -1036,3 +1036,21 @@ M("C08.when_empty_callback_lost", ["C08"], "batcher/src/lib.rs",
   "            state.next_batch.watchers.push_on_take(Box::new(f));", "            drop(f);", "C08.R3:when_empty-consumes-callback")
 M("C08.when_flushed_parked_on_take", ["C08"], "batcher/src/lib.rs",
   "            state.next_batch.watchers.push_on_flush(Box::new(f));", "            state.next_batch.watchers.push_on_take(Box::new(f));", "C08.R3:when_flushed-consumes-callback")
+
+# ---- round 6 (own probing): constructors, configuration wiring, naming tables ------------------------------------------------------
+M("C06.bounded_starts_closed", ["C06", "C09"], "batcher/src/lib.rs",
+  "            is_open: true,\n            is_in_batch: false,", "            is_open: false,\n            is_in_batch: false,", "R0:bounded")
+M("C08.retry_backoff_min_above_max", ["C08"], "batcher/src/lib.rs",
+  "retry_delay: Delay::new(Duration::from_millis(700), Duration::from_secs(10)),", "retry_delay: Delay::new(Duration::from_secs(10), Duration::from_millis(700)),", "C08.R0:bounded")
+M("C11.spawn_swaps_size_and_count_limits", ["C11"], "emitter/file/src/lib.rs",
+  "            self.max_files,\n            self.max_file_size_bytes,", "            self.max_file_size_bytes,\n            self.max_files,", "C11.R11")
+M("C10.emitter_separator_not_configured_one", ["C10"], "emitter/file/src/lib.rs",
+  "            writer: self.writer,\n            separator: self.separator,", "            writer: self.writer,\n            separator: b\"\\n\",", "C10.R6:configuration")
+M("C12.logs_json_builder_builds_proto", ["C12"], "emitter/otlp/src/client/logs.rs",
+  "        Self::new(Encoding::Json, transport)", "        Self::new(Encoding::Proto, transport)", "C12.R9:named-constructors")
+M("C12.logs_grpc_service_path_of_traces", ["C12"], "emitter/otlp/src/client/logs.rs",
+  'Some("opentelemetry.proto.collector.logs.v1.LogsService/Export")', 'Some("opentelemetry.proto.collector.trace.v1.TraceService/Export")', "C12.R9:named-constructors")
+M("C13.content_type_arms_crossed", ["C13", "C12"], "emitter/otlp/src/client/http.rs",
+  '        Encoding::Proto => "application/x-protobuf",\n        Encoding::Json => "application/json",', '        Encoding::Proto => "application/json",\n        Encoding::Json => "application/x-protobuf",', "encoding-arms")
+M("C07.flush_watchers_pushed_to_take_list", ["C07"], "batcher/src/lib.rs",
+  "    fn push_on_flush(&mut self, watcher: Watcher) {\n        self.on_flush.push(watcher);", "    fn push_on_flush(&mut self, watcher: Watcher) {\n        self.on_take.push(watcher);", "C07.R3:watcher-lists")
